@@ -68,6 +68,7 @@ def run():
     from props import _sym as _symmod
     from props._util import section as _section
     _section(rep, "dataset", lambda: _symmod.dataset_section(rep))
+    _section(rep, "getters", lambda: _symmod.public_getters_section(rep))
     return rep
 
 
@@ -302,6 +303,11 @@ def replay(ob):
                     # counts proportional to the atom counts
                     if set(co) != set(cc) or any(co[k] * len(conv) != cc[k] * len(variant) for k in cc):
                         fails.append({"sg": sg, "occupied": [li, lj], "species": [za, zb], "observed": "(letter, element) counts of the original description %s vs conventional %s are not in the ratio of the atom counts" % (dict(co), dict(cc))})
+                        break
+                    prim = a.get_primitive_system()
+                    cpp = collections.Counter(zip([str(x) for x in a.get_wyckoff_letters_primitive()], prim.get_atomic_numbers().tolist()))
+                    if set(cpp) != set(cc) or any(cpp[k] * len(conv) != cc[k] * len(prim) for k in cc):
+                        fails.append({"sg": sg, "occupied": [li, lj], "species": [za, zb], "observed": "(letter, element) counts of the primitive description %s vs conventional %s are not in the ratio of the atom counts" % (dict(cpp), dict(cc))})
                         break
             except Exception as e:  # noqa
                 fails.append({"sg": sg, "occupied": [li, lj], "observed": "%s: %s" % (type(e).__name__, str(e)[:200])})
